@@ -3,8 +3,8 @@
 from a scratch copy of /verif with VERIF_REPO pointing at it.
 usage: tools/eval_mutants.py DIR... (each DIR holds m<k>.diff [+ m<k>_demo.py], named .../Cxx[...]) [--tier quick]"""
 import glob, json, os, re, subprocess, sys, time
-WT = "/tmp/wt/eval"
-VE = "/tmp/verif-eval"
+WT = os.environ.get("EVAL_WT", "/tmp/wt/eval")     # one user per directory at a time: give parallel runs their own pair
+VE = os.environ.get("EVAL_VE", "/tmp/verif-eval")
 tier = "quick"
 dirs = []
 for a in sys.argv[1:]:
@@ -49,6 +49,7 @@ for d in dirs:
                         "wall": round(time.time() - t0, 1)})
         print(prop, name, "rc=%s" % r.returncode, "demo_rc=%s" % demo_rc, "%.0fs" % (time.time() - t0), "|", " ; ".join(lines)[:300], flush=True)
         sh("git -C %s checkout -- ." % WT)
-json.dump(results, open("/tmp/mut/results-%d.json" % int(time.time()), "w"), indent=1)
+os.makedirs("/tmp/mut", exist_ok=True)
+json.dump(results, open("/tmp/mut/results-%d-%d.json" % (int(time.time()), os.getpid()), "w"), indent=1)
 caught = sum(1 for r in results if r.get("rc") == 1)
 print("caught %d / %d" % (caught, len(results)))
